@@ -30,6 +30,16 @@ func AppendString(buf []byte, s string, delim byte) []byte {
 		if i < skip {
 			continue
 		}
+		if delim == '/' && b < 0x20 {
+			// a control character in the source of a regex is written as the escape the
+			// regex syntax has for it (the JSON escapes mean other things there, or nothing)
+			if start < i {
+				buf = append(buf, s[start:i]...)
+			}
+			buf = append(buf, '\\', 'x', hex[(b>>4)&0x0f], hex[b&0x0f])
+			start = i + 1
+			continue
+		}
 		c := jMap[b]
 		switch c {
 		case 'o':
